@@ -18,11 +18,11 @@ import (
 // other owner is observed.
 
 type WPair struct {
-	R [3]*roaring.Bitmap // a, b, p
-	M [3]*model.Set32
+	R [4]*roaring.Bitmap // a, b, p (interleaved partner), q (wipes whole chunks of a)
+	M [4]*model.Set32
 }
 
-var pairName = [3]string{"a", "b", "p"}
+var pairName = [4]string{"a", "b", "p", "q"}
 
 func newWPair() *WPair {
 	A := bit(shapes.Lo, shapes.W, shapes.Mid)
@@ -33,6 +33,8 @@ func newWPair() *WPair {
 	w.R[0], w.M[0] = a.B, a.M
 	w.R[1], w.M[1] = a.B.Clone(), a.M.Clone()
 	w.R[2], w.M[2] = p.B, p.M
+	q := shapes.Spec{Chunks: []shapes.ChunkSpec{{Key: 0, Mask: bit(shapes.Full)}, {Key: 4, Mask: bit(shapes.Full)}, {Key: 7, Mask: bit(shapes.Hi)}}, Mode: shapes.Opt}.Build()
+	w.R[3], w.M[3] = q.B, q.M
 	return w
 }
 
@@ -93,6 +95,14 @@ func pairOps(quick bool) []explore.Op[*WPair] {
 				w.M[t] = op.Model(w.M[t], w.M[2])
 			})
 		}
+		add(n+".AndNot(q)", func(w *WPair) {
+			w.R[t].AndNot(w.R[3])
+			w.M[t] = model.AndNot32(w.M[t], w.M[3])
+		})
+		add(n+".And(q)", func(w *WPair) {
+			w.R[t].And(w.R[3])
+			w.M[t] = model.And32(w.M[t], w.M[3])
+		})
 		add(n+".RunOptimize()", func(w *WPair) { w.R[t].RunOptimize() })
 		add(n+".CloneCopyOnWriteContainers()", func(w *WPair) { w.R[t].CloneCopyOnWriteContainers() })
 		add(n+".SetCopyOnWrite(false)", func(w *WPair) { w.R[t].SetCopyOnWrite(false) })
